@@ -186,6 +186,26 @@ def run(ctx):
              f"the only counter(s) the expansion cut tests ({sorted(tested)}) are restored in the finally of {b.short}: they bound the nesting depth; "
              f"a pure/enqueueActions callback that returns itself twice expands 2**(MAX_ACTION_DEPTH+1) times before every branch is cut, "
              f"so send()/start() do not return in any practical time", b.node)
+        # the cut is a disjunction of its tests (either bound alone cuts) and the budget counter counts the expanding kinds
+        from sa.util import canon_atom as _ca
+        for t in cut_tests:
+            conj = isinstance(t.test, ast.BoolOp) and isinstance(t.test.op, ast.And)
+            parts = t.test.values if isinstance(t.test, ast.BoolOp) else [t.test]
+            shapes = [_ca(x_) for x_ in parts]
+            okc = not conj and all(sh[0] in (">", ">=") and sh[3] is True for sh in shapes)
+            c.ob("R6", okc, cf6, f"{v}:cut-is-a-disjunction", "each bound alone cuts the expansion" if okc else
+                 f"the cut test '{norm(t.test)}' is not a disjunction of 'counter > bound' tests: the depth bound (or the budget) no longer cuts on its own, "
+                 f"so a linear self-enqueueing chain recurses until RecursionError (or a branching one runs 2**depth expansions)", t)
+        for a in monotone:
+            for f_ in roles(ctx, v).funcs:
+                for w in attr_writes(f_):
+                    if w.attr == a and w.op == "aug" and f_.name != "__init__":
+                        at = [_ca(a_, pol) for a_, pol in guards_at(f_, w.node)]
+                        bad = [t_ for t_ in at if (t_[0] == "in" and "canonical" in t_[1] and t_[3] is False) or (t_[0] == "truthy" and ((t_[1] == "False" and t_[3]) or (t_[1] == "True" and not t_[3])))]
+                        kinds_ok = all(all(k in t_[2] for k in ("PURE", "CHOOSE", "ENQUEUE_ACTIONS")) for t_ in at if t_[0] == "in" and "canonical" in t_[1] and t_[3] is True)
+                        c.ob("R6", not bad and kinds_ok, f_, f"{v}:budget-counts-expansions:{a}", "the budget counter is stepped for every expanding built-in (pure, choose, enqueueActions)" if not bad and kinds_ok else
+                             f"'{stmt_text(w.node)}' is guarded by {at}: the expansions of pure / choose / enqueueActions are not (all) counted, so the budget never "
+                             f"fills and a branching self-enqueueing callback is bounded in depth only again", w.node)
         for a in monotone:
             reinit = [w for f_ in roles(ctx, v).funcs if f_.name != "__init__" for w in attr_writes(f_)
                       if w.attr == a and w.op == "assign" and isinstance(getattr(w.node, "value", None), ast.Constant)]
